@@ -26,7 +26,7 @@ def _patched():
     import numpy
     from orquestra.quantum import wavefunction as WF
 
-    return ST.patched((WF, "np", ST.NpProxy(numpy)))
+    return ST.patched((WF, "np", ST.NpProxy(numpy)), (WF, "float", ST.float_shadow))
 
 
 def _norm2(parts):
@@ -38,7 +38,10 @@ def work(item):
     res = Result(f"{kind}|{p['label']}")
     from orquestra.quantum import wavefunction as WF
 
-    res.fn(WF.Wavefunction.__init__, WF.Wavefunction._check_normalization, WF.Wavefunction.__setitem__, WF.Wavefunction.bind, WF.Wavefunction.get_probabilities, WF.Wavefunction.dicke_state, WF._get_next_number_with_same_hamming_weight, WF._most_significant_set_bit, WF.flip_amplitudes, WF._get_ordering, WF.flip_wavefunction)
+    try:  # evidence only: a renamed private helper must not break the check
+        res.fn(WF.Wavefunction.__init__, WF.Wavefunction._check_normalization, WF.Wavefunction.__setitem__, WF.Wavefunction.bind, WF.Wavefunction.get_probabilities, WF.Wavefunction.dicke_state, WF._get_next_number_with_same_hamming_weight, WF._most_significant_set_bit, WF.flip_amplitudes, WF._get_ordering, WF.flip_wavefunction)
+    except AttributeError:
+        pass
     res.d["cuts"].append("numpy proxy in wavefunction.py: asarray(dtype=complex) keeps symbolic amplitudes in an object array; abs/sum/isclose exact-real")
     try:
         {"hist": _w_history, "symmode": _w_symmode, "bits": _w_bits, "dicke": _w_dicke, "flip": _w_flip, "io": _w_io, "len": _w_len}[kind](res, p)
@@ -167,6 +170,16 @@ def symmode_cases():
         ("bind partially above 1", lambda W: W([a, b, 0.7, 0.7]).bind({a: 0.5}), "raise"),
         ("bind then assign to unnormalised", lambda W: _assign(W([a, b, h, h]).bind({a: 0.5}), 1, 0.3), "raise-unchanged"),
         ("bind complex value", lambda W: W([a, h, h, h]).bind({a: 0.5j}), "ok-normalised"),
+        # numeric entries that are imaginary, complex or exact sympy constants count towards the total like any number
+        ("ctor imaginary numeric part above 1", lambda W: W([a, 1j, 1j, 0]), "raise"),
+        ("ctor complex numeric part above 1", lambda W: W([a, 0.6 + 0.8j, 0.3, 0]), "raise"),
+        ("ctor complex numeric part below 1", lambda W: W([a, 0.3 + 0.4j, 0.5j, 0]), "ok"),
+        ("ctor exact constants above 1", lambda W: W([a, sympy.sqrt(2) / 2, sympy.sqrt(2) / 2, sympy.Rational(1, 2)]), "raise"),
+        ("ctor exact constants below 1", lambda W: W([a, sympy.pi / 4, sympy.I / 2, 0]), "ok"),
+        ("assign imaginary number keeping a symbol, partial 1.31", lambda W: _assign(W([a, 0.5, 0.5j, b]), 3, 0.9j), "raise-unchanged"),
+        ("assign imaginary number keeping a symbol, partial 0.75", lambda W: _assign(W([a, 0.5, 0.5j, b]), 3, 0.5j), "ok"),
+        ("bind imaginary partially above 1", lambda W: W([a, b, h, 0]).bind({a: 0.9j}), "raise"),
+        ("bind exact constant partially above 1", lambda W: W([a, b, h, h]).bind({a: sympy.sqrt(3) / 2}), "raise"),
     ]
 
 
